@@ -44,15 +44,14 @@ Section Main.
 
   (* at most one marked argument and silent unmarked ones => at most one noisy trace *)
   Lemma amo_args args : (length (filter (fun b => b) (map (has_se fe) args)) < 2)%nat ->
-    Forall (fun a => se_closed fe a = true) args ->
     amo (map (tr fe s) args).
   Proof.
-    unfold amo. intros H Hc.
+    unfold amo. intros H.
     assert (G : (length (filter nonempty (map (tr fe s) args)) <= length (filter (fun b => b) (map (has_se fe) args)))%nat).
-    { clear H. induction Hc as [|a args Ha _ IH]; [cbn; lia|]. cbn [map filter].
+    { clear H. induction args as [|a args IH]; [cbn; lia|]. cbn [map filter].
       destruct (has_se fe a) eqn:E.
       - destruct (nonempty (tr fe s a)); cbn [length]; lia.
-      - rewrite (unmarked_silent fe NW s a Ha E). cbn [nonempty]. exact IH. }
+      - rewrite (unmarked_silent fe NW s a E). cbn [nonempty]. exact IH. }
     lia.
   Qed.
 
@@ -61,12 +60,12 @@ Section Main.
   Proof. induction l; cbn; congruence. Qed.
 
   Lemma call_plain f args t o :
-    Forall arg_ok args -> Forall (fun a => se_closed fe a = true) args ->
+    Forall arg_ok args ->
     (length (filter (fun b => b) (map (has_se fe) args)) < 2)%nat ->
     exists o', ceval fe (CCall f (map (comp fe) args)) (s, t) o =
                ((s, rev (tr fe s (ECall f args)) ++ t), val fe s (ECall f args), o').
   Proof.
-    intros Hargs Hcl Hcount. cbn [ceval]. rewrite mk_thunks, map_map.
+    intros Hargs Hcount. cbn [ceval]. rewrite mk_thunks, map_map.
     set (L := number O args).
     assert (Eths : number O (map (fun x => ceval fe (comp fe x)) args) = map thunk_of L).
     { unfold L. rewrite number_map. reflexivity. }
